@@ -243,6 +243,11 @@ fn main() {
         std::process::exit(2);
     }
     let prop = args[1].clone();
+    let known = prop.len() == 3 && prop.starts_with('C') && prop[1..].parse::<u32>().map(|n| (1..=20).contains(&n)).unwrap_or(false);
+    if !known || (args[2] == "--replay" && args.len() < 4) {
+        eprintln!("usage: avt_verif <C01..C20> <quick|thorough> | avt_verif <Cxx> --replay <file>");
+        std::process::exit(2);
+    }
     let seed: u64 = std::env::var("VERIF_SEED").ok().and_then(|s| s.parse().ok()).unwrap_or(1);
     if args[2] == "--replay" {
         let (p, h) = run::load_replay(&args[3]).expect("cannot read replay file");
